@@ -221,6 +221,16 @@ impl Sim {
     }
 
     /// form a cluster quickly: everybody learns everybody through apply_many, then settle
+    pub fn form_aligned(&mut self) {
+        let n = self.nodes.len();
+        for i in 0..n {
+            let others: Vec<MMember> =
+                (0..n).filter(|j| *j != i).map(|j| MMember { id: VId::new(j as u16 + 1, 0, self.nodes[j].inst.foca.identity().k, 0), inc: 0, state: 0 }).collect();
+            self.now = 0;
+            self.call(i, Input::ApplyMany(others, false));
+        }
+    }
+
     pub fn form_instantly(&mut self) {
         let n = self.nodes.len();
         for i in 0..n {
